@@ -91,7 +91,7 @@ class C13(Check):
     rule = ("archive = 2..4 folders (append sessions; Copy, LZMA2, BZip2, ZStandard, Deflate, LZMA) x 1..3 members each; extraction chunk limit "
             "patched to 48..200 bytes so that a member is several output writes; execution mode threads (path-opened), processes (mp=True, "
             "to a directory) or sequential (stream-opened); intact or exactly one folder damaged (a byte of its packed stream inverted) at each "
-            "position; output to a gated WriterFactory or to a directory. Worker threads are parked at every create/write of the factory and "
+            "position; output to a gated WriterFactory or to a directory; extractall or extract(T) with selections that leave the first or a middle folder without worker. Worker threads are parked at every create/write of the factory and "
             "released one at a time according to the schedule; for cases with few gate points all schedules are enumerated depth-first "
             "(capped), otherwise schedules are drawn by Hypothesis. k independent SevenZipFile objects on the same file extracted "
             "concurrently are checked too. Oracle: every schedule and mode delivers exactly the model for intact archives; with a damaged "
@@ -111,7 +111,8 @@ class C13(Check):
         return st.fixed_dictionaries({"arch": spec, "mode": st.sampled_from(["threads", "threads", "threads", "process", "sequential"]),
                                       "damage": st.one_of(st.none(), st.none(), st.integers(0, 3)), "out": st.sampled_from(["factory", "factory", "path"]),
                                       "chunk": st.sampled_from([48, 100, 200]), "sched": st.lists(st.integers(0, 3), max_size=40),
-                                      "concurrent_objects": st.sampled_from([1, 1, 1, 3])})
+                                      "concurrent_objects": st.sampled_from([1, 1, 1, 3]),
+                                      "targets": st.one_of(st.none(), st.none(), st.lists(st.integers(0, 11), min_size=1, max_size=4, unique=True))})
 
     def examples(self, env):
         return env.n(250, 5000)
@@ -126,6 +127,14 @@ class C13(Check):
                 i += 1
                 if env.mine(i):
                     yield {"arch": sp, "mode": "threads", "damage": dmg, "out": "factory", "chunk": 64, "sched": "dfs", "concurrent_objects": 1}
+                # selections that leave the first / a middle folder without worker
+                nm = sum(len(f) for f in sp["folders"])
+                for tsel in ([nm - 1], [len(sp["folders"][0])], list(range(len(sp["folders"][0]), nm))):
+                    for mode in ("threads", "process", "sequential"):
+                        i += 1
+                        if env.mine(i):
+                            yield {"arch": sp, "mode": mode, "damage": dmg, "out": "factory" if mode != "process" else "path", "chunk": 64, "sched": [1, 0, 1],
+                                   "concurrent_objects": 1, "targets": tsel}
                 for mode in ("process", "sequential"):
                     i += 1
                     if env.mine(i):
@@ -149,16 +158,15 @@ class C13(Check):
             pos = a + (b - a) // 2
             D[pos] ^= 0xFF
         D = bytes(D)
-        if dmg is not None:
-            # independent verdict: an inverted byte that does not change any member (padding, empty members) is not damage
-            try:
-                P = RR.parse(D)
-                serious = [v for v in RR.hard_violations(P) if "crc-mismatch" in v or "decode-error" in v or "produces" in v or "short-for" in v]
-                if not P.errors and not serious and {m["name"]: m["data"] for m in P.members} == model:
-                    dmg = None
-                    out.label("damage-harmless")
-            except Exception:
-                pass
+        names = list(model)
+        T = None
+        if case.get("targets") is not None:
+            T = sorted({names[i % len(names)] for i in case["targets"]})
+            full_model = model
+            model = {n: full_model[n] for n in T}
+            if dmg is not None and not any(folder_of[n] == dmg for n in T):
+                dmg = None  # the damaged folder holds no selected member: it is skipped, nothing to report
+                out.label("damage-in-skipped-folder")
         mode = case["mode"]
         outk = "path" if mode == "process" else case["out"]
         env.state["k"] += 1
@@ -167,10 +175,11 @@ class C13(Check):
         apath = os.path.join(work, "a.7z")
         with open(apath, "wb") as f:
             f.write(D)
-        out.descriptor = (repr(case["arch"]), dmg, mode, outk, case["chunk"], "dfs" if case["sched"] == "dfs" else tuple(case["sched"]), case["concurrent_objects"])
+        out.descriptor = (repr(case["arch"]), dmg, mode, outk, case["chunk"], "dfs" if case["sched"] == "dfs" else tuple(case["sched"]), case["concurrent_objects"],
+                          tuple(T) if T else None)
         out.label("mode:" + mode, "out:" + outk, "damage:" + ("none" if dmg is None else ("first" if dmg == 0 else ("last" if dmg == nf - 1 else "middle"))),
                   "folders=%d" % nf)
-        sig = {"mode": mode, "out": outk, "damaged": dmg is not None}
+        sig = {"mode": mode, "out": outk, "damaged": dmg is not None, "targets": T is not None}
         if dmg is not None:
             sig["position"] = "first" if dmg == 0 else ("last" if dmg == nf - 1 else "middle")
         nsched = 0
@@ -181,7 +190,7 @@ class C13(Check):
                     schedule = [] if case["sched"] == "dfs" else list(case["sched"])
                     cap = 250 if env.quick else 1500
                     while True:
-                        r = self._run_threads(apath, model, folder_of, dmg, schedule, out, sig)
+                        r = self._run_threads(apath, model, folder_of, dmg, schedule, out, sig, T)
                         nsched += 1
                         if r is None:
                             break
@@ -195,10 +204,10 @@ class C13(Check):
                         if schedule is None:
                             out.label("dfs:exhausted")
                             break
-                    if case["concurrent_objects"] > 1 and dmg is None:
-                        self._concurrent(apath, model, case["concurrent_objects"], out, sig)
+                    if case["concurrent_objects"] > 1 and D == data:
+                        self._concurrent(apath, build(case["arch"])[1], case["concurrent_objects"], out, sig)
                 else:
-                    self._run_plain(apath, D, model, folder_of, dmg, mode, outk, work, out, sig)
+                    self._run_plain(apath, D, model, folder_of, dmg, mode, outk, work, out, sig, T)
                     nsched = 1
         finally:
             shutil.rmtree(work, ignore_errors=True)
@@ -219,12 +228,21 @@ class C13(Check):
                 out.violate(dict(ctx, kind="delivered-set-differs"), observed=sorted(got), expected=sorted(model))
         else:
             if raised is None:
-                out.violate(dict(ctx, kind="worker-error-lost"), observed={"returned": "normally", "delivered": sorted(got)}, expected="an exception from extract/extractall")
+                # no exception: then no worker can have met an error, i.e. the damaged folder's members must all be there and right
+                # (an inverted byte in padding, in an empty member's stream or past the data a streaming decoder needs is harmless)
+                bad = [n for n in model if folder_of.get(n) == dmg and got.get(n) != model[n]]
+                if bad:
+                    out.violate(dict(ctx, kind="worker-error-lost"), observed={"returned": "normally", "wrong_or_missing": bad[:4], "delivered": sorted(got)},
+                                expected="an exception from extract/extractall")
+                else:
+                    out.label("damage-harmless")
+                    if set(got) != set(model):
+                        out.violate(dict(ctx, kind="delivered-set-differs"), observed=sorted(got), expected=sorted(model))
         for n, d in got.items():
             if n in model and d != model[n] and (dmg is None or folder_of.get(n) != dmg):
                 out.violate(dict(ctx, kind="bytes-differ"), observed={"name": n, "len": len(d), "folder": folder_of.get(n)}, expected={"len": len(model[n])})
 
-    def _run_threads(self, apath, model, folder_of, dmg, schedule, out, sig):
+    def _run_threads(self, apath, model, folder_of, dmg, schedule, out, sig, T=None):
         import py7zr.py7zr as pp
 
         counter = {"n": 0}
@@ -251,7 +269,10 @@ class C13(Check):
         try:
             try:
                 with py7zr.SevenZipFile(apath, "r") as z:
-                    z.extractall(factory=fac)
+                    if T is None:
+                        z.extractall(factory=fac)
+                    else:
+                        z.extract(targets=T, factory=fac)
             except Exception as e:
                 raised = e
         finally:
@@ -266,7 +287,7 @@ class C13(Check):
             return None
         return sched.options, sched.trace
 
-    def _run_plain(self, apath, D, model, folder_of, dmg, mode, outk, work, out, sig):
+    def _run_plain(self, apath, D, model, folder_of, dmg, mode, outk, work, out, sig, T=None):
         raised = None
         got = {}
         try:
@@ -279,13 +300,19 @@ class C13(Check):
             with py7zr.SevenZipFile(src, "r", **kw) as z:
                 if outk == "factory":
                     fac = py7zr.io.BytesIOFactory(arch.BIG)
-                    z.extractall(factory=fac)
+                    if T is None:
+                        z.extractall(factory=fac)
+                    else:
+                        z.extract(targets=T, factory=fac)
                     for k, v in fac.products.items():
                         v.seek(0)
                         got[k] = v.read()
                 else:
                     dest = os.path.join(work, "out")
-                    z.extractall(dest)
+                    if T is None:
+                        z.extractall(dest)
+                    else:
+                        z.extract(dest, targets=T)
         except Exception as e:
             raised = e
         if outk == "path":
